@@ -3227,6 +3227,15 @@ impl PeerConnection {
         label: &str,
         config: Option<crate::transports::sctp::DataChannelConfig>,
     ) -> RtcResult<Arc<crate::transports::sctp::DataChannel>> {
+        // DCEP OPEN carries label and protocol behind 16-bit length fields: anything
+        // longer cannot be announced to the peer as what it is.
+        let protocol_len = config.as_ref().map_or(0, |c| c.protocol.len());
+        if label.len() > u16::MAX as usize || protocol_len > u16::MAX as usize {
+            return Err(RtcError::InvalidConfiguration(
+                "data channel label / protocol longer than 65535 bytes".into(),
+            ));
+        }
+
         // Ensure we have an application transceiver for negotiation
         let has_app_transceiver = {
             let transceivers = self.inner.transceivers.lock();
